@@ -215,6 +215,7 @@ def h_thub(ctx, cfg):
   ctx.prove(isinstance(th, StreamTeeHub), "thub-of-iterable-is-hub")
   uses = []
   kinds = cfg.get("kinds") or ["iter", "stream", "limit", "skip", "map", "append", "filter_all"]
+  if cfg.get("as_argument"): kinds = ["iter", "appended-to", "appended-to-with-more", "chained"]
   F = lambda e: ctx.apply("F", (lambda v: v * 3 + 1), e)
   # peeking / copying first must not consume a use
   if cfg.get("peek_first") and n >= 1:
@@ -235,16 +236,28 @@ def h_thub(ctx, cfg):
     elif kind == "map": uses.append(iter(th.map(F))); wants.append([F(e) for e in src])
     elif kind == "append":
       x = ctx.elem("x%d" % u); uses.append(iter(th.append([x]))); wants.append(list(src) + [x])
+    elif kind == "appended-to":        # the hub handed to another Stream's append: one use, served in full
+      y = ctx.elem("y%d" % u); uses.append(iter(Stream([y]).append(th))); wants.append([y] + list(src))
+    elif kind == "appended-to-with-more":
+      y = ctx.elem("y%d" % u); uses.append(iter(Stream([y]).append(th, [y]))); wants.append([y] + list(src) + [y])
+    elif kind == "chained":
+      from audiolazy.lazy_itertools import chain as _chain
+      y = ctx.elem("y%d" % u); uses.append(iter(_chain([y], th))); wants.append([y] + list(src))
     else: uses.append(iter(th.filter(lambda e: True))); wants.append(list(src))
-  # use n+1 must raise IndexError (whatever the way of asking)
-  ask = ctx.choice("ask", ["iter", "stream", "peek", "copy", "limit", "map"])
-  try:
-    {"iter": lambda: iter(th), "stream": lambda: Stream(th), "peek": lambda: th.peek(1), "copy": lambda: th.copy(),
-     "limit": lambda: th.limit(1), "map": lambda: th.map(F)}[ask]()
-    raised = False
-  except IndexError:
-    raised = True
-  ctx.prove(raised, "thub-use-n+1-raises-IndexError", "ask=%s n=%d" % (ask, n))
+  def ask_one_more():
+    # use n+1 must raise IndexError (whatever the way of asking)
+    ask = ctx.choice("ask", ["iter", "stream", "peek", "copy", "limit", "map"])
+    try:
+      {"iter": lambda: iter(th), "stream": lambda: Stream(th), "peek": lambda: th.peek(1), "copy": lambda: th.copy(),
+       "limit": lambda: th.limit(1), "map": lambda: th.map(F)}[ask]()
+      raised = False
+    except IndexError:
+      raised = True
+    ctx.prove(raised, "thub-use-n+1-raises-IndexError", "ask=%s n=%d" % (ask, n))
+  # a hub placed inside a lazy chain (append with several arguments, itertools.chain) is only asked for its use when
+  # the chain reaches it: there the extra use is requested after the n uses have been consumed
+  late = bool(cfg.get("as_argument"))
+  if not late: ask_one_more()
   # consume the uses in an order chosen by case split: every interleaving (short sources) or a permutation
   got = [[] for _ in uses]
   live = list(range(len(uses)))
@@ -263,6 +276,7 @@ def h_thub(ctx, cfg):
   for j in range(len(uses)):
     ctx.prove(_same_list(got[j], wants[j]), "thub-uses-independent-and-complete", "use %d" % j)
     ctx.observe("use", len(got[j]))
+  if late: ask_one_more()
 
 
 def h_thub_noniter(ctx, cfg):
@@ -371,6 +385,9 @@ def tasks(tier, seed):
     for src in ("list", "stream"):
       T.append(("h_thub", {"L": L, "n": 3, "src": src, "interleave": False,
                            "kinds": None if big else ["iter", "stream", "limit", "map"]}))
+  for src in ("list", "stream"):
+    T.append(("h_thub", {"L": 2, "n": 3 if big else 2, "src": src, "as_argument": True}))
+    T.append(("h_thub", {"L": 3, "n": 3, "src": src, "as_argument": True, "interleave": False}))
   T.append(("h_thub_noniter", {}))
   for kind in ("stream", "gen", "listiter", "chain", "islice", "useriter", "map", "zipiter", "list", "tuple", "number", "none"):
     T.append(("h_tee_kinds", {"kind": kind, "L": 2 if not big else 3}))
